@@ -7,6 +7,7 @@ package tmengine
 
 import (
 	"bytes"
+	"context"
 	"crypto/ed25519"
 	"encoding/binary"
 	"fmt"
@@ -42,6 +43,20 @@ type vzOracles struct {
 
 	// H-NODE: the chain as the omnipotent environment authored it (height -> hash)
 	advChain map[uint64]string
+
+	// C10: what was durable when a node crashed, per node index
+	crashSnap map[int]*vzCrashSnap
+}
+
+// vzCrashSnap is the durable state of a node at the moment its process died.
+type vzCrashSnap struct {
+	inc     int
+	nhr     [4]uint64
+	hasNHR  bool
+	commits map[uint64]string
+	fins    map[uint64]string
+	rounds  map[[2]uint64]*vzViewDigest // stored proposals and votes of the voting and committing rounds
+	checked map[[2]uint64]bool
 }
 
 type vzViewDigest struct {
@@ -60,6 +75,7 @@ func (o *vzOracles) init(w *vzWorld) {
 	o.prescribed = map[uint64]tmconsensus.ValidatorSet{}
 	o.lastView = map[string]vzViewDigest{}
 	o.advChain = map[uint64]string{}
+	o.crashSnap = map[int]*vzCrashSnap{}
 }
 
 func (o *vzOracles) violate(prop, key, f string, a ...any) {
@@ -78,7 +94,13 @@ func (w *vzWorld) onCommittedHeaderSaved(nd *vzNode, ch tmconsensus.CommittedHea
 	w.orc.onCommittedHeaderSaved(nd, ch)
 }
 func (w *vzWorld) onFinalizationRefused(nd *vzNode, h uint64, have, got string, err error) {
-	w.orc.violate("C10", "finalization-overwrite-attempt", "%s tried to save a finalization for height %d again (stored %s, offered %s): %v", nd.ident(), h, have, got, err)
+	if have != got {
+		w.orc.violate("C10", "finalization-recomputed-differently", "%s tried to save a different finalization for height %d (stored %s, offered %s): %v", nd.ident(), h, have, got, err)
+		return
+	}
+	// the same content offered again is refused by the store and changes nothing; what the engine does
+	// with the refusal is judged by the recovery oracle (C10 not-recovered) and by C09
+	w.s.Probe("finalization_offered_again_same_content")
 }
 func (w *vzWorld) onNetworkHeightRound(nd *vzNode, vh uint64, vr uint32, ch uint64, cr uint32) {
 	w.orc.onNetworkHeightRound(nd, vh, vr, ch, cr)
@@ -142,6 +164,7 @@ func (o *vzOracles) onNetworkHeightRound(nd *vzNode, vh uint64, vr uint32, ch ui
 	}
 	o.mu.Lock()
 	defer o.mu.Unlock()
+	o.onRestartPosition(nd, vh, vr, ch, cr)
 	l := nd.disk.nhr
 	if len(l) >= 2 {
 		p := l[len(l)-2]
@@ -408,6 +431,7 @@ func (o *vzOracles) onGossipUpdate(nd *vzNode, u tmelink.NetworkViewUpdate) {
 	for name, v := range map[string]*tmconsensus.VersionedRoundView{"committing": u.Committing, "voting": u.Voting, "next": u.NextRound} {
 		if v != nil {
 			o.checkView(nd, "gossip-"+name, v)
+			o.checkResumedView(nd, "gossip "+name, v)
 		}
 	}
 	if u.NilVotedRound != nil {
@@ -823,4 +847,155 @@ func (o *vzOracles) checkFinalizeHasCertificate(nd *vzNode, fr tmdriver.Finalize
 		}
 	}
 	o.violate("C01", "finalize-without-certificate", "%s asked the driver to finalize %x at height %d round %d but holds no valid > 2/3 precommit certificate for it (round store: %v)", nd.ident(), hash, h, fr.Round, err)
+}
+
+// ---- C10: restart on the same stores
+
+// onCrash records what is durable at the moment nd's process dies.
+func (o *vzOracles) onCrash(nd *vzNode) {
+	if !o.on["C10"] {
+		return
+	}
+	o.mu.Lock()
+	defer o.mu.Unlock()
+	d := nd.disk
+	sn := &vzCrashSnap{inc: nd.inc, commits: map[uint64]string{}, fins: map[uint64]string{}, rounds: map[[2]uint64]*vzViewDigest{}, checked: map[[2]uint64]bool{}}
+	for h, l := range d.commits {
+		sn.commits[h] = l[len(l)-1]
+	}
+	for h, f := range d.fins {
+		sn.fins[h] = f
+	}
+	if n := len(d.nhr); n > 0 {
+		sn.nhr, sn.hasNHR = d.nhr[n-1], true
+		for _, hr := range [][2]uint64{{sn.nhr[0], sn.nhr[1]}, {sn.nhr[2], sn.nhr[3]}} {
+			if hr[0] == 0 {
+				continue
+			}
+			phs, pv, pc, err := d.round.LoadRoundState(context.Background(), hr[0], uint32(hr[1]))
+			if err != nil {
+				continue
+			}
+			dg := &vzViewDigest{phs: map[string]bool{}, votes: map[string]bool{}}
+			for _, ph := range phs {
+				dg.phs[string(ph.Header.Hash)+"/"+string(ph.Signature)] = true
+			}
+			for kind, c := range map[string]tmconsensus.SparseSignatureCollection{"prevote": pv, "precommit": pc} {
+				for hash, sigs := range c.BlockSignatures {
+					for _, sg := range sigs {
+						dg.votes[fmt.Sprintf("%s/%x/%x", kind, hash, sg.KeyID)] = true
+					}
+				}
+			}
+			sn.rounds[hr] = dg
+		}
+	}
+	o.crashSnap[nd.idx] = sn
+}
+
+// checkResumedView: the first view of a resumed round that the restarted node publishes must contain
+// every proposal and vote that was durable for that round when the process died.
+func (o *vzOracles) checkResumedView(nd *vzNode, where string, v *tmconsensus.VersionedRoundView) {
+	if !o.on["C10"] || v == nil {
+		return
+	}
+	sn := o.crashSnap[nd.idx]
+	if sn == nil || nd.inc != sn.inc+1 {
+		return
+	}
+	hr := [2]uint64{v.Height, uint64(v.Round)}
+	want := sn.rounds[hr]
+	if want == nil || sn.checked[hr] {
+		return
+	}
+	sn.checked[hr] = true
+	have := map[string]bool{}
+	for _, ph := range v.ProposedHeaders {
+		have[string(ph.Header.Hash)+"/"+string(ph.Signature)] = true
+	}
+	for k := range want.phs {
+		if !have[k] {
+			o.violate("C10", "stored-proposal-missing-after-restart", "%s: the first %s view of the resumed round %d/%d lacks a proposed header that was in the round store when the process stopped", nd.ident(), where, v.Height, v.Round)
+		}
+	}
+	got := map[string]bool{}
+	for kind, m := range map[string]map[string]gcrypto.CommonMessageSignatureProof{"prevote": v.PrevoteProofs, "precommit": v.PrecommitProofs} {
+		for hash, p := range m {
+			for _, sg := range p.AsSparse().Signatures {
+				got[fmt.Sprintf("%s/%x/%x", kind, hash, sg.KeyID)] = true
+			}
+		}
+	}
+	for k := range want.votes {
+		if !got[k] {
+			o.violate("C10", "stored-vote-missing-after-restart", "%s: the first %s view of the resumed round %d/%d lacks vote %s that was in the round store when the process stopped", nd.ident(), where, v.Height, v.Round, k)
+		}
+	}
+}
+
+// onRestartPosition: the first position a restarted node records must not be behind the durable one.
+func (o *vzOracles) onRestartPosition(nd *vzNode, vh uint64, vr uint32, ch uint64, cr uint32) {
+	sn := o.crashSnap[nd.idx]
+	if !o.on["C10"] || sn == nil || !sn.hasNHR || nd.inc != sn.inc+1 {
+		return
+	}
+	if vh < sn.nhr[0] || (vh == sn.nhr[0] && uint64(vr) < sn.nhr[1]) || ch < sn.nhr[2] {
+		o.violate("C10", "position-regressed-after-restart", "%s: durable position was voting %d/%d committing %d/%d, after the restart the node recorded voting %d/%d committing %d/%d",
+			nd.ident(), sn.nhr[0], sn.nhr[1], sn.nhr[2], sn.nhr[3], vh, vr, ch, cr)
+	}
+}
+
+// checkRecovered runs at the end of a crash run whose environment kept re-sending what was in flight:
+// the node must have reached the chain it would have reached without the stop.
+func (o *vzOracles) checkRecovered(nd *vzNode, chain map[uint64]string, target uint64, crashed bool) {
+	if !o.on["C10"] || !crashed {
+		return
+	}
+	o.mu.Lock()
+	defer o.mu.Unlock()
+	d := nd.disk
+	for h := o.w.cfg.initialHeight; h <= target; h++ {
+		l := d.commits[h]
+		if len(l) == 0 {
+			o.violate("C10", "not-recovered/commit-missing", "%s: after the restart and re-delivery of everything in flight, height %d (of %d) is not in the committed header store; last position %v", nd.ident(), h, target, d.nhr[len(d.nhr)-1])
+			return
+		}
+		if l[len(l)-1] != chain[h] {
+			o.violate("C10", "not-recovered/other-chain", "%s: height %d committed as %x, the chain has %x", nd.ident(), h, trunc(l[len(l)-1]), trunc(chain[h]))
+			return
+		}
+	}
+	for h := o.w.cfg.initialHeight; h <= target; h++ {
+		if d.fins[h] == "" {
+			w := o.w
+			w.mu.Lock()
+			cause := w.lastErr[nd.ident()]
+			w.mu.Unlock()
+			o.violate("C10", "not-recovered/finalization-missing/"+vzSkeleton(cause), "%s: after the restart the mirror committed up to height %d but height %d was never finalized (state machine stuck or gone); last error logged: %q", nd.ident(), target, h, cause)
+			return
+		}
+	}
+}
+
+// checkStoredHeadersIntact: what the committed-header store returns for a height is still what was saved
+// (C04: no later input changes a committed height; C16: loads return what the latest save stored).
+func (o *vzOracles) checkStoredHeadersIntact(nd *vzNode) {
+	if !o.on["C04"] && !o.on["C10"] && !o.on["C01"] {
+		return
+	}
+	o.mu.Lock()
+	defer o.mu.Unlock()
+	d := nd.disk
+	for h, want := range d.commitDigest {
+		ch, err := d.commit.LoadCommittedHeader(context.Background(), h)
+		if err != nil {
+			o.violate("C04", "stored-committed-header-lost", "%s: committed header %d can no longer be loaded: %v", nd.ident(), h, err)
+			continue
+		}
+		if got := vzCommittedHeaderDigest(ch); got != want {
+			o.violate("C04", "stored-committed-header-mutated", "%s: the committed header store now returns something else for height %d than what was saved (proof targets saved %d, now %d)", nd.ident(), h, strings.Count(want, ":"), strings.Count(got, ":"))
+			o.violate("C10", "stored-committed-header-mutated", "%s: the committed header store now returns something else for height %d than what was saved", nd.ident(), h)
+			o.violate("C01", "stored-committed-header-mutated", "%s: the committed header store now returns something else for height %d than what was saved", nd.ident(), h)
+		}
+	}
 }
